@@ -505,7 +505,11 @@ class Theory:
                 self.extend_constant(ext)
             elif ext.is_theorem():
                 if ext.prf:
-                    self.check_proof(ext.prf)
+                    # A theorem counts as proved only if its proof has no
+                    # gaps and concludes the stated theorem.
+                    res_th = self.check_proof(ext.prf, no_gaps=True)
+                    if res_th is None or not res_th.can_prove(ext.th):
+                        raise CheckProofException("proof does not conclude " + str(ext.th))
                 else:  # No proof - add as axiom
                     ext_report.add_axiom(ext.name, ext.th)
 
